@@ -518,6 +518,12 @@ CORPUS_EXTRA = [
         [[1, [["cb", "src", "sub", "c.c"], [], [], [["h.h"]]]]],
         [(["cb", "src", "lc.c"], 0, ["sub", "c.c"])],
         entries=[[1, [["cb", "src", "lc.c"], [], [], [["h.h"]]]]]),
+    # a RELATIVE link target located in a sub-directory (inc1/lu.h -> ../src/h.h), analysis run from elsewhere:
+    # the target must be resolved from the link's directory (Path.resolve), not read literally (readlink)
+    _mk([[["cb", "src", "h.h"], [["Code"], ["Def", "H", "E"]]], [["cb", "src", "a.c"], [["Inc", ["Q", ["h.h"]]], ["Code"]]]],
+        [[0, [["cb", "src", "a.c"], [], [], []]]],
+        [(["cb", "inc1", "lu.h"], 0, ["..", "src", "h.h"]), (["cb", "inc1", "lsrc"], 0, ["..", "src"])],
+        entries=[[0, [["cb", "inc1", "lsrc", "a.c"], [], [], []]]]),
     # one file compiled through a link and through its real path, a link to a file outside, a link with a non-source name
     _mk([[["cb", "src", "a.c"], [["Code"], ["If", ["Defd", "F0"]], ["Code"], ["Endif"]]], [["ext", "x.c"], [["Code"]]]],
         [[0, [["cb", "src", "a.c"], [], [], []]], [1, [["cb", "src", "a.c"], [], [["F0", "E"]], []]], [1, [["ext", "x.c"], [], [], []]]],
